@@ -109,7 +109,8 @@ func metadataMergeInterceptor(old, new proto.Message) {
 	// The default proto.Merge logic is to append src slices to dst slices.
 	// Instead we want to treat the Traits slice as if it were a map keyed by TraitMetadata.Name,
 	// so we have to do it ourselves.
-	oldVal := old.(*traits.Metadata)
+	// work on a copy of the old traits, old is the stored message which readers and subscribers may be looking at
+	oldVal := proto.Clone(old).(*traits.Metadata)
 	newVal := new.(*traits.Metadata)
 	newVal.Traits = oldVal.Traits
 	for _, trait := range cleanTraits {
